@@ -218,7 +218,7 @@ class Regridding:
             yield {"model": kind}
         # dense models re-gridded onto a different domain (bounded clause: the path rounds coordinates)
         for kind in ("ddf", "svf"):
-            for how in ("crop", "pad", "shift", "finer-shifted"):
+            for how in ("crop", "pad", "shift", "finer-shifted", "flag-flip", "finer-flag-flip"):
                 yield {"model": kind, "domain": how}
 
     def run(self, case, K):
@@ -280,6 +280,10 @@ class Regridding:
             g2 = g.crop(num=(1, 2, 1, 0))
         elif how == "pad":
             g2 = g.pad(num=(2, 1, 0, 2))
+        elif how == "flag-flip":
+            g2 = g.align_corners(not g.align_corners())   # same lattice, the other normalised-cube convention
+        elif how == "finer-flag-flip":
+            g2 = g.resize((17, 15)).align_corners(not g.align_corners())
         elif how == "shift":
             g2 = g.center(g.center() + g.direction() @ (g.spacing() * torch.tensor([1.5, -1.0])))
         else:
@@ -303,3 +307,46 @@ class Regridding:
         w1 = K.call(t.points, pts, axes=Axes.WORLD)
         if K.ensure_returns(w1, text=Q9G):
             K.ensure_eq("same-world-map", w1, K.val(w0), text=Q9G + f" [{how}: world points in the interior of both domains]")
+
+
+@register
+class CompositeInverseBuffers:
+    """A composite with a stationary-velocity member that was evaluated before: inverse(update_buffers=True) (what `.inv`
+    requests) yields a transformation that is usable as it is - its disp() / forward() / points(), none of which runs the
+    update hook, are those of an inverse whose buffers were computed after it was built."""
+
+    target = "deepali.spatial.composite:SequentialTransform.inverse"
+    properties = ("C09", "C07")
+
+    def cases(self, tier):
+        for kind in ("svf", "svffd"):
+            for first in ("Translation", None):
+                yield {"member": kind, "first": first}
+
+    def run(self, case, K):
+        import deepali.spatial as sp
+
+        D = 2
+        kind = case["member"]
+        g, gs = make_grid(K, "g", D, sizes=(5, 4) if kind == "svffd" else (4, 3), align_corners=True)
+        proto = fresh(kind, g, False)
+        vals = K.reals("p", tuple(proto.data().shape), lo=Fraction(-1, 8), hi=Fraction(1, 8))
+        child = fresh(kind, g, K.tensor(vals))
+        members = [child]
+        if case["first"]:
+            members.insert(0, sp.Translation(g, params=K.tensor(K.reals("t", (1, D), lo=Fraction(-1, 8), hi=Fraction(1, 8)))))
+        t = sp.SequentialTransform(*members)
+        x = torch.tensor([[[0.21, -0.37], [-0.42, 0.13]]])
+        y = K.call(t, x, modifies=_state_tensors(t))
+        if not K.ensure_returns(y, text=Q9):
+            return
+        inv = K.call(t.inverse, update_buffers=True, protect=[t])
+        if not K.ensure_returns(inv, text=Q9):
+            return
+        ref = t.inverse(update_buffers=False)
+        ref.update()
+        for name, f in (("disp", lambda m: m.disp()), ("forward", lambda m: m.forward(x))):
+            got = K.call(f, inv, modifies=_state_tensors(inv))
+            if K.ensure_returns(got, text=Q9D):
+                want = K.call(f, ref, modifies=_state_tensors(ref))
+                K.ensure_eq(f"inverse-{name}", got, K.val(want), text=Q9D + f" [{name}() of a composite inverse created with update_buffers=True]")
